@@ -156,6 +156,32 @@ def nullspace_cases(rng, n):
   return recs
 
 
+def float32_cases(rng, n):
+  """query points held in single precision, at magnitudes whose squares neither overflow nor vanish in DOUBLE precision
+  (and whose coordinates are finite float32 numbers): the distances are computed from the numbers, whatever type holds them"""
+  recs = []
+  for i in range(n):
+    d = int(rng.integers(2, 6))
+    k = int(rng.integers(1, d + 1))
+    L = rng.standard_normal((k, d))
+    pts = []
+    for _ in range(3):
+      if i % 2 == 0:
+        s = float(rng.choice([1.5e19, 3e18, 1e10]))
+        a = (rng.standard_normal(d) * s).astype(np.float32)
+        b = (rng.standard_normal(d) * s).astype(np.float32)
+      else:
+        s = float(rng.choice([1e-23, 1e-25, 1e-12]))
+        a = (rng.standard_normal(d) * s).astype(np.float32)
+        b = (a * np.float32(2.0)).astype(np.float32)              # 0, y, 2y are collinear: d(0, 2y) = 2 d(0, y)
+      pts.append([a, b])
+    P = np.array(pts, dtype=np.float32)
+    if i % 2 == 1:
+      P[-1, 0] = 0.0                                              # the origin, so that (0, y, 2y) triples are drawn
+    recs.append(dict(lane='float32', L=L, pts=P))
+  return recs
+
+
 # ----------------------------------------------------------------------------- falsifiers
 def falsify_metric(est, L, trip):
   """property oracle of C01 on the implementation, for one triple (x, y, z).
@@ -177,9 +203,13 @@ def falsify_metric(est, L, trip):
     return ('d(x,x) != 0', dxx)
   if dxy != dyx:
     return ('d(x,y) != d(y,x)', (dxy, dyx))
-  # rounding of the computed distances is bounded relative to |L| (|x| + |y| + |z|), not to the distances themselves
-  mag = float(np.sqrt(np.sum(np.abs(L).dot(np.abs(x) + np.abs(y) + np.abs(z)) ** 2)))
-  if dxz > dxy + dyz + 1e-9 * (dxy + dyz) + 1e-12 * mag + 1e-300:
+  # rounding of the computed distances is bounded relative to |L| (|x| + |y| + |z|), not to the distances themselves;
+  # points held in a narrow float type are subtracted in that type (one rounding of relative size eps(type) per coordinate)
+  xt = np.asarray(x).dtype
+  epsq = float(np.finfo(xt).eps) if xt.kind == 'f' and xt.itemsize < 8 else 0.0
+  x64, y64, z64 = (np.asarray(v, dtype=float) for v in (x, y, z))
+  mag = float(np.sqrt(np.sum(np.abs(L).dot(np.abs(x64) + np.abs(y64) + np.abs(z64)) ** 2)))
+  if dxz > dxy + dyz + 1e-9 * (dxy + dyz) + (1e-12 + 8 * epsq) * mag + 1e-300:
     return ('triangle inequality', (dxz, dxy, dyz))
   with warnings.catch_warnings():
     warnings.simplefilter('ignore')
@@ -202,7 +232,8 @@ def falsify_metric(est, L, trip):
     return ('get_metric()(x,y) != get_metric()(y,x)', (float(m), float(mrev)))
   if not np.array_equal(s, -dd):
     return ('pair_score != -pair_distance', (s.tolist(), dd.tolist()))
-  bound = 1e-9 * float(np.sum((np.abs(L).dot(np.abs(y - x))) ** 2)) ** 0.5 + 1e-300
+  bound = 1e-9 * float(np.sum((np.abs(L).dot(np.abs(y64 - x64))) ** 2)) ** 0.5 + 1e-300 + \
+      8 * epsq * float(np.sqrt(np.sum(np.abs(L).dot(np.abs(x64) + np.abs(y64)) ** 2)))
   if not (abs(m - dxy) <= 1e-6 * max(dxy, m) + bound):
     return ('get_metric()(x,y) != pair_distance', (m, dxy))
   if not (abs(msq - dxy * dxy) <= 1e-6 * max(dxy * dxy, msq) + bound * bound + 2 * bound * dxy):
